@@ -448,6 +448,158 @@ def gen_array():
                     yield {'interface': iface, 'message': mname, 'arg': idx}
 
 
+# ---- descriptions installed on the system beside the shipped ones ----------------------------------------------------
+# load_all() also reads /usr/share/wayland and /usr/share/wayland-protocols.  What those hold is an answer of the
+# environment: none (this image), older or newer releases of files the tool ships under the same name, unrelated files.
+# The directory is presented to the protocol module through its `os` (listing and joining of that one path are redirected
+# to a scratch tree; everything below it is real files).
+
+class _PathShim:
+    def __init__(self, real, virt, target):
+        self._r, self._v, self._t = real, virt, target
+
+    def __getattr__(self, n):
+        return getattr(self._r, n)
+
+    def isdir(self, p):
+        return True if p == self._v else self._r.isdir(p)
+
+    def isfile(self, p):
+        return False if p == self._v else self._r.isfile(p)
+
+    def exists(self, p):
+        return True if p == self._v else self._r.exists(p)
+
+    def join(self, a, *b):
+        return self._r.join(self._t if a == self._v else a, *b)
+
+
+class _OsShim:
+    def __init__(self, real, virt, target):
+        self._r, self._v, self._t = real, virt, target
+        self.path = _PathShim(real.path, virt, target)
+
+    def __getattr__(self, n):
+        return getattr(self._r, n)
+
+    def listdir(self, p='.'):
+        return self._r.listdir(self._t if p == self._v else p)
+
+    def walk(self, p, *a, **kw):
+        return self._r.walk(self._t if p == self._v else p, *a, **kw)
+
+    def scandir(self, p='.'):
+        return self._r.scandir(self._t if p == self._v else p)
+
+
+def _lowered(src, dst):
+    """An older release of a shipped file: every interface at version 1, without what came later."""
+    import xml.etree.ElementTree as ET
+    tree = ET.parse(src)
+    for i in tree.getroot().findall('interface'):
+        i.set('version', '1')
+        for m in list(i):
+            if m.tag in ('request', 'event', 'enum') and int(m.get('since', '1')) > 1:
+                i.remove(m)
+            elif m.tag == 'enum':
+                for e in list(m):
+                    if e.tag == 'entry' and int(e.get('since', '1')) > 1:
+                        m.remove(e)
+    os.makedirs(os.path.dirname(dst), exist_ok=True)
+    tree.write(dst)
+
+
+def _raised(src, dst):
+    """A newer release: every interface at version 99 with one more request."""
+    import xml.etree.ElementTree as ET
+    tree = ET.parse(src)
+    for i in tree.getroot().findall('interface'):
+        i.set('version', '99')
+        r = ET.SubElement(i, 'request', {'name': 'zz_added_in_99', 'since': '99'})
+        ET.SubElement(r, 'arg', {'name': 'zz_new_argument', 'type': 'int'})
+    os.makedirs(os.path.dirname(dst), exist_ok=True)
+    tree.write(dst)
+
+
+INSTALLED = ['nothing_else', 'older_xdg_shell', 'older_wayland', 'newer_wayland', 'older_everything_with_a_twin']
+
+
+def eval_installed(case):
+    import shutil
+    import tempfile
+    from core.wl import protocol
+    from core.output import Output, stream
+    V = []
+    ship = os.path.join(sut.REPO, 'resources', 'protocols')
+    by_name = {}
+    for f in protoxml.discover(ship):
+        by_name.setdefault(os.path.basename(f), []).append(f)
+    d = tempfile.mkdtemp(prefix='verif-c07-')
+    real_os = getattr(protocol, 'os', None)
+    try:
+        with open(os.path.join(d, 'zz-installed-only.xml'), 'w') as f:
+            f.write('<protocol name="zz"><interface name="zz_installed_only" version="1"><request name="ping">'
+                    '<arg name="zz_serial" type="uint"/></request></interface></protocol>')
+        k = case['installed']
+        if k == 'older_xdg_shell':
+            _lowered(max(by_name['xdg-shell.xml'], key=len), os.path.join(d, 'stable', 'xdg-shell', 'xdg-shell.xml'))
+        elif k == 'older_wayland':
+            _lowered(min(by_name['wayland.xml'], key=len), os.path.join(d, 'wayland.xml'))
+        elif k == 'newer_wayland':
+            _raised(min(by_name['wayland.xml'], key=len), os.path.join(d, 'wayland.xml'))
+        elif k == 'older_everything_with_a_twin':
+            for name, paths in sorted(by_name.items()):
+                if len(paths) > 1:
+                    _lowered(paths[0], os.path.join(d, 'twins', name))
+        if real_os is None:
+            return Eval([], outcome='seam_missing', nontrivial=False)
+        protocol.os = _OsShim(real_os, '/usr/share/wayland-protocols', d)
+        try:
+            protocol.dump_all()
+            protocol.load_all(Output(False, True, stream.String(), stream.String()))
+        finally:
+            protocol.os = real_os
+        try:
+            seen = protocol.get_arg_name('zz_installed_only', 'ping', 0) == 'zz_serial'
+        except RuntimeError:
+            seen = False
+        if not seen:
+            return Eval([], outcome='seam_missing', nontrivial=False)      # the loader does not look there (any more): nothing to compare
+        ref = protoxml.load_tree([d, ship])
+        n = 0
+        for iface, cands in sorted(ref.items()):
+            failures = []
+            for cand in cands:
+                bad = None
+                for mname, args in cand.messages.items():
+                    if (iface, mname) == ('wl_registry', 'bind'):
+                        continue
+                    for idx, (an, at, ai, ae) in enumerate(args):
+                        n += 1
+                        try:
+                            got = protocol.get_arg_name(iface, mname, idx)
+                        except RuntimeError as e:
+                            got = 'error: ' + str(e)[:80]
+                        if got != an:
+                            bad = bad or {'message': mname, 'arg': idx, 'expected': an, 'observed': got,
+                                          'version': cand.version, 'file': cand.path.replace(sut.REPO, '').replace(d, '<installed>')}
+                failures.append(bad)
+            if failures and all(b is not None for b in failures):
+                V.append(Violation('protocol.installed_description', case, {'interface': iface, 'first_mismatch_per_candidate': failures}))
+                if len(V) >= 3:
+                    break
+    except Exception:
+        V.append(sut.exc_violation(case))
+    finally:
+        if real_os is not None:
+            protocol.os = real_os
+        shutil.rmtree(d, ignore_errors=True)
+        # the next case of this worker starts from the ordinary set of descriptions again
+        sut._protocols_loaded = False
+        sut.ensure_protocols()
+    return Eval(V, outcome=[case['installed'], len(V)], nontrivial=case['installed'] != 'nothing_else', transitions=1)
+
+
 def run(run, tier, seed):
     sut.bind()
     sut.ensure_protocols()
@@ -470,6 +622,8 @@ def run(run, tier, seed):
     run.add_part('version_precedence', res)
     res = explore.prod(gen_array, eval_array, seed=seed)
     run.add_part('array_elements', res)
+    res = explore.prod(lambda: ({'installed': k} for k in INSTALLED), eval_installed, seed=seed, bound={'system_directories': INSTALLED})
+    run.add_part('installed_descriptions', res)
     ties = sum(1 for c in top().values() if len({d.content() for d in c}) > 1)
     run.rule = ('every shipped interface x message x argument position (%d interfaces, %d with differing tied top versions); '
                 'every enum-typed argument x {entries, unions, 0, -1, max+1, 2^31}; all load orders of synthetic multi-version '
@@ -483,6 +637,8 @@ def run(run, tier, seed):
 def replay(case):
     sut.bind()
     sut.ensure_protocols()
+    if 'installed' in case:
+        return eval_installed(case).viols
     if 'order' in case:
         return eval_precedence(case).viols
     if 'first' in case:
